@@ -72,18 +72,30 @@ Proof.
   repeat split; auto; lia.
 Qed.
 
-(* either kind, in the root's terms: gb = log2(data_width / granularity) of the ROOT *)
+(* either kind, in the root's terms: gb = log2(data_width / granularity) of the ROOT is also the
+   subordinate's *)
 Lemma sub_geom r o sp n w g hh : wsub_dom r (o, sp, n) -> wb_map n = Ok w -> wb_hw n = Ok (g, hh) ->
-  0 <= wbroot_gbits r <= wb_maw n /\ 0 < wb_maw n /\ wr_dw r / wr_gran r = 2 ^ wbroot_gbits r /\
-  WbDecoder.g_aw g = wb_maw n - wbroot_gbits r /\ WbDecoder.g_dw g = wr_dw r /\ WbDecoder.g_g g = wr_gran r.
+  0 <= wbroot_gbits r <= wb_maw n /\ 0 < wb_maw n /\ wb_ndw n / wb_ngran n = 2 ^ wbroot_gbits r /\
+  WbDecoder.g_aw g = wb_maw n - wbroot_gbits r /\ WbDecoder.g_dw g / WbDecoder.g_g g = 2 ^ wbroot_gbits r.
 Proof.
-  intros (_ & Hdw & Hgr & _ & Hc) Hm Hh. cbn [fst snd] in *. unfold wbroot_gbits. rewrite <- Hdw, <- Hgr.
-  destruct n as [id size dw gran wr init|dw nm c]; cbn [wb_maw wb_ndw wb_ngran] in *.
-  - destruct (sram_hw_spec _ _ _ _ _ _ _ _ Hh) as (ge & rows0 & gb & _ & G0 & Gq & Gle & Gp & _ & Ga & Gd & Gg & _).
-    rewrite Gq, Z.log2_pow2 by lia. repeat split; auto; lia.
-  - destruct (bridge_map_spec _ _ _ _ Hc Hm) as (w0 & wn & _ & _ & _ & _ & Hpos & _).
-    destruct (bridge_hw_spec _ _ _ _ _ Hpos Hh) as (bc & ch & gb & _ & _ & G0 & Gq & Gle & Ga & Gd & Gg & _).
-    rewrite Gq, Z.log2_pow2 by lia. repeat split; auto; lia.
+  intros (Hgeo & _ & Hc) Hm Hh. cbn [fst snd] in *.
+  assert (Hk : exists gb, 0 <= gb <= wb_maw n /\ 0 < wb_maw n /\ wb_ndw n / wb_ngran n = 2 ^ gb /\
+                 WbDecoder.g_aw g = wb_maw n - gb /\ WbDecoder.g_dw g = wb_ndw n /\ WbDecoder.g_g g = wb_ngran n).
+  { destruct n as [id size dw gran wr init|dw nm c]; cbn [wb_maw wb_ndw wb_ngran] in *.
+    - destruct (sram_hw_spec _ _ _ _ _ _ _ _ Hh) as (ge & rows0 & gb & _ & G0 & Gq & Gle & Gp & _ & Ga & Gd & Gg & _).
+      exists gb. repeat split; auto; lia.
+    - destruct (bridge_map_spec _ _ _ _ Hc Hm) as (w0 & wn & _ & _ & _ & _ & Hpos & _).
+      destruct (bridge_hw_spec _ _ _ _ _ Hpos Hh) as (bc & ch & gb & _ & _ & G0 & Gq & Gle & Ga & Gd & Gg & _).
+      exists gb. repeat split; auto; lia. }
+  destruct Hk as (gb & Hgb & Hpos & Hq & Ga & Gd & Gg).
+  assert (Egb : wbroot_gbits r = gb).
+  { destruct Hgeo as [(_ & Hdw & Hgr)|(_ & H0 & Heq)].
+    - unfold wbroot_gbits. rewrite <- Hdw, <- Hgr, Hq. apply Z.log2_pow2. lia.
+    - rewrite H0. apply (Z.pow_inj_r 2); [lia|lia|lia|]. rewrite <- Hq, Heq.
+      assert (wb_ngran n <> 0).
+      { intros E0. rewrite Heq, E0 in Hq. cbn in Hq. pose proof (pow2_pos gb). lia. }
+      rewrite Z.div_same by assumption. reflexivity. }
+  rewrite Egb, Gd, Gg. repeat split; auto; lia.
 Qed.
 
 (* ------------------------------------------------------------------ the decoder's configuration *)
@@ -176,7 +188,7 @@ Proof.
   destruct S as [Es Hd Ew _ Hstep _ Hmw _ _ _].
   pose proof (nth_error_In _ _ Ew) as Hin. pose proof (wf_tree_node _ Hwt) as Hwf.
   assert (Hg : wf_tree w /\ m_aw w = wb_maw n /\ m_dw w = wb_ngran n).
-  { apply wb_map_good; [|exact Hmw]. destruct Hd as (_ & _ & _ & _ & Hc). cbn [snd] in Hc.
+  { apply wb_map_good; [|exact Hmw]. destruct Hd as (_ & _ & Hc). cbn [snd] in Hc.
     destruct n; [exact I|exact Hc]. }
   destruct Hg as (Hww & Haw & _).
   destruct (win_step_ok _ _ _ Hwf Hin) as [_ Hlen]. rewrite Hstep, Z.div_1_r, frozen_aw, Haw in Hlen.
